@@ -666,10 +666,14 @@ class Engine:
             if len(c2) >= 1: return ('mir', c2[0])
         key = (head, trait, meth)
         # shims / builtins
-        name = SHIMS.get((head, meth)) or SHIMS.get((trait, meth))
-        if trait and (head, trait, meth) in SHIMS3: name = SHIMS3[(head, trait, meth)]
+        name = SHIMS3.get((head, trait, meth)) if trait else None
+        name = name or SHIMS.get((head, meth))
         if name and name in self.prog.free: return ('mir', self.prog.free[name])
-        b = BUILTIN_METHODS.get((head, meth)) or BUILTIN_METHODS.get((trait, meth))
+        b = BUILTIN_METHODS.get((head, meth))
+        if b: return ('builtin', b)
+        name = SHIMS.get((trait, meth))
+        if name and name in self.prog.free: return ('mir', self.prog.free[name])
+        b = BUILTIN_METHODS.get((trait, meth))
         if b: return ('builtin', b)
         if head in BITS and meth in INT_METHODS: return ('builtin', bi_int_method)
         # generic type parameter: dispatch on runtime type of first arg
